@@ -59,7 +59,7 @@ Inductive op :=
 | OFitTilt (p : nat) (inplace : bool)
 | OCopy (p : nat)                                  (* Plane.copy *)
 | ORescale (p : nat)                               (* Plane.rescale / resample *)
-| OWave                                            (* Wavefront(wavelength) *)
+| OWave (t : option tilt)                          (* Wavefront(wavelength, tilt=[rx, ry]) *)
 | OMul (p w : nat)                                 (* plane.multiply(w) / w * plane *)
 | OPropDft (w : nat) (z : Z) (keys : list key)     (* propagate_dft; keys: the _dft2_coords key of each field *)
 | OPropFft (w : nat) (scratch : option nat)        (* propagate_fft(scratch=) *)
@@ -75,7 +75,9 @@ Inductive op :=
 | OSpecBin (s1 s2 : nat)                           (* spectrum op spectrum *)
 | OSpecTo (s : nat) (flux : bool)                  (* Spectrum.to(unit): edits the spectrum *)
 | OSpecTrim (s : nat)                              (* Spectrum.trim(): edits the spectrum (views) *)
-| OSpecResample (s wave : nat).                    (* Spectrum.resample(wave): edits the spectrum *)
+| OSpecResample (s wave : nat)                     (* Spectrum.resample(wave): edits the spectrum *)
+| OPokeAttr (p : nat) (slot : nat)                 (* the caller assigns into obj.attr[...] (plane.opd[...] = x, plane.mask[...] = x, ...) *)
+| OMulTilt (w : nat) (t : tilt).                   (* wavefront * lentil.Tilt(x, y) / DispersiveTilt: TiltInterface.multiply *)
 
 (* ---- state plumbing ---- *)
 Definition with_hp (s : state) (h : heap) := mkstate h (ob s) (env s) (cache s) (rng s).
@@ -265,7 +267,7 @@ Definition do_rescale (s : state) (p : nat) : state * outcome :=
   match getobj s p with
   | Some (_, Plane a d m tl nseg kind) =>
     let '(s1, (a1, d1, m1)) := dcopy s a d m in
-    let '(s2, a2) := if scalar s1 a1 then (s1, a1) else alloc1 s1 (kf K 30 [valof s1 a1] []) in
+    let '(s2, a2) := alloc1 s1 (kf K 30 [valof s1 a1] []) in    (* rescaled array, or scalar/scale *)
     let '(s3, d2) := if scalar s2 d1 then (s2, d1) else alloc1 s2 (kf K 31 [valof s2 d1] []) in
     let '(s4, m2) := alloc1 s3 (kf K 32 [valof s3 m1] []) in
     let '(s5, j) := push_obj s4 (Plane a2 d2 m2 tl nseg kind) in
@@ -419,9 +421,9 @@ Definition main (s : state) (o : op) (cvs : list (arrv * arrv * arrv * arrv)) : 
       | _ => fail s 9 []
       end
   | ORescale p => do_rescale s p
-  | OWave =>
+  | OWave t =>
       let '(s1, i) := alloc1 s [1] in
-      let '(s2, j) := push_obj s1 (Wave [mkfield i []]) in ret s2 [] [] (VObj j)
+      let '(s2, j) := push_obj s1 (Wave [mkfield i (match t with Some x => [x] | None => [] end)]) in ret s2 [] [] (VObj j)
   | OMul p w => do_mul s p w
   | OPropDft w z _ => do_prop_dft s w z cvs
   | OPropFft w scratch => do_prop_fft s w scratch
@@ -469,6 +471,27 @@ Definition main (s : state) (o : op) (cvs : list (arrv * arrv * arrv * arrv)) : 
       | Some x => do_spec_edit s r (fun s w v =>
                     let '(s1, i) := alloc1 s (kf K 306 [valof s w; valof s v; valof s x] []) in (s1, Spec x i))
       | None => fail s 9 []
+      end
+  | OPokeAttr p k =>
+      match getobj s p with
+      | Some (_, o) =>
+        match nth_error (oslots o) k with
+        | Some a => match wr s a (kf K 1 [valof s a] []) with
+                    | Some s1 => ret s1 [a] [] VNone
+                    | None => fail s 1 [a] end
+        | None => fail s 9 []
+        end
+      | None => fail s 9 []
+      end
+  | OMulTilt w t =>
+      (* Plane.multiply with the scalar phasor of the tilt plane: field * phasor is a fresh array and
+         tilt = field.tilt + [] a fresh list; then field.tilt.append(self) on the product *)
+      match getobj s w with
+      | Some (_, Wave fs) =>
+        let '(s1, ids) := alloc_list s (map (fun f => kf K 41 [valof s (f_data f)] []) fs) in
+        let '(s2, j) := push_obj s1 (Wave (map (fun x => mkfield (fst x) (f_tilt (snd x) ++ [t])) (combine ids fs))) in
+        ret s2 [] [] (VObj j)
+      | _ => fail s 9 []
       end
   end.
 
@@ -536,6 +559,9 @@ Definition documented (s : state) (o : op) : list aid :=
   | OPropFft _ (Some r) => match getarr s r with Some a => [a] | None => [] end  (* scratch *)
   | OInsert _ r => match getarr s r with Some a => [a] | None => [] end          (* accumulate into array *)
   | ODft2 _ _ (Some r) _ _ => match getarr s r with Some a => [a] | None => [] end   (* explicit output buffer *)
+  | OPokeAttr p k => match getobj s p with                                          (* the caller's own assignment *)
+                     | Some (_, o) => match nth_error (oslots o) k with Some a => [a] | None => [] end
+                     | None => [] end
   | _ => []
   end.
 Definition odocumented (s : state) (o : op) : list oid :=
